@@ -31,6 +31,8 @@ func genOp(t *rapid.T, names []string, regOnly bool) Op {
 			op.F = "fail"
 		case 2, 3, 4:
 			op.F = "ret:" + rapid.SampledFrom(pool).Draw(t, "ret")
+		case 6, 7:
+			op.F = "typed"
 		case 5:
 			op.F = "ret:" + op.From
 		default:
